@@ -49,15 +49,18 @@ pub fn check_image(case: &mut Case, img: &ModularImage, thorough: bool) {
         case.violation(sig, format!("loaded_frames={} done={} [{} | preview {:?}]", image.num_loaded_frames(), image.is_loading_done(), img.desc, img.preview));
         return;
     }
+    // With a preview frame that the decoder sizes differently (known finding) the first frame is
+    // parsed from the wrong offset: whatever goes wrong first belongs to that finding.
+    let pv_dev = matches!(img.preview, Some((_, _, true)));
     match frame_level_modular::<i32>(&image, 0) {
         Ok(p) => {
             if let Err(e) = compare_planes(img, &p, "frame-level i32") {
-                case.violation("mismatch-i32", format!("{e} [{} | {}]", img.desc, img.enc_desc));
+                case.violation(if pv_dev { "dev:preview-frame-size" } else { "mismatch-i32" }, format!("{e} [{} | {} | preview {:?}]", img.desc, img.enc_desc, img.preview));
                 return;
             }
         }
         Err(e) => {
-            case.violation("decode-err-i32", format!("{e} [{} | {}]", img.desc, img.enc_desc));
+            case.violation(if pv_dev { "dev:preview-frame-size" } else { "decode-err-i32" }, format!("{e} [{} | {} | preview {:?}]", img.desc, img.enc_desc, img.preview));
             return;
         }
     }
@@ -78,7 +81,11 @@ pub fn check_image(case: &mut Case, img: &ModularImage, thorough: bool) {
         case.obs("frame_level_i16", 1);
     }
     // ---- full render path for channels without subsampling
-    let configs: Vec<(Pool, bool)> = if thorough {
+    // (under Miri no thread pool: rayon's crossbeam-epoch trips Stacked Borrows in third-party code,
+    // which would mask everything else; races are TSan's job in the C02 plan)
+    let configs: Vec<(Pool, bool)> = if cfg!(miri) {
+        vec![(Pool::None, false), (Pool::None, true)]
+    } else if thorough {
         vec![(Pool::None, false), (Pool::None, true), (Pool::Rayon(4), false)]
     } else {
         let k = case.rng.below(3);
